@@ -98,11 +98,16 @@ def shape(M, lpath, count):
     return docs.fixup(lex)
 
 
-def apply_payload(M, slot, kind, payload):
+def apply_payload(M, slot, kind, payload, preserve=False):
     """-> (lexicon, raw_text map). For text slots the dict holds the normal form and
-    raw_text the literal payload."""
+    raw_text the literal payload; with preserve the element is written with xml:space="preserve" and the dict
+    holds the literal payload, which the loader keeps verbatim."""
     lex = copy.deepcopy(M)
     slot = tuple(slot)
+    if kind == 'text' and preserve:
+        obj = docs.get_path(lex, slot[:-1])
+        obj['text'] = payload
+        return lex, {id(obj): payload, '__preserve__': {id(obj)}}
     if kind == 'text':
         obj = docs.get_path(lex, slot[:-1])
         obj['text'] = docs.normal_text(payload)
@@ -143,7 +148,7 @@ def build(case):
     if kind == 'feat':
         lexs = [docs.derive(M, case['base'], case['delta'], flags=flags)]
     elif kind == 'payload':
-        lex, raw = apply_payload(M, case['slot'], case['skind'], case['payload'])
+        lex, raw = apply_payload(M, case['slot'], case['skind'], case['payload'], case.get('preserve', False))
         lexs = [lex]
     elif kind == 'idpayload':
         lexs = [rename_all_ids(M, case['payload'])]
@@ -236,6 +241,11 @@ def payload_space(v, attr_payloads=None, text_payloads=None):
             out.append({'v': v, 'kind': 'payload', 'slot': list(slot), 'skind': skind, 'payload': p})
     for p in docs.ID_PAYLOADS:
         out.append({'v': v, 'kind': 'idpayload', 'payload': p})
+    # text kept verbatim (xml:space="preserve"): irregular whitespace must survive the store and an export
+    for slot, skind in docs.string_slots(M):
+        if skind == 'text':
+            for p in docs.PRESERVE_PAYLOADS:
+                out.append({'v': v, 'kind': 'payload', 'slot': list(slot), 'skind': skind, 'payload': p, 'preserve': True})
     return out
 
 
